@@ -55,6 +55,13 @@ theorem region_separation (p : Params) (segs : List Seg) (sol : Sol) (h : AllHol
   have := h _ hm
   simpa [Cons.holds] using this
 
+/-- the executable constraint test of the driver decides `Cons.holds` -/
+theorem holdsB_iff (sol : Sol) (c : Cons) : c.holdsB sol = true ↔ c.holds sol := by
+  cases c with
+  | sep j i gap eq => cases eq <;> simp [Cons.holdsB, Cons.holds]
+  | lower i l => simp [Cons.holdsB, Cons.holds]
+  | upper i u => simp [Cons.holdsB, Cons.holds]
+
 /-- non-vacuity: a region of two overlapping free segments of different connectors in a channel
     [0, 30] with sepDist 10, and an assignment satisfying all constraints -/
 example : AllHold ⟨10, true, fun _ _ => false, fun _ _ => false, 1/10000⟩
